@@ -176,7 +176,7 @@ Lemma ps_record_T ptr isz st last b st' last' : ps_T isz st ->
 Proof.
   intros T. unfold ps_record.
   destruct (parse_dr b) as [r|]; [|discriminate].
-  destruct (2 <=? zlen (sysuse r)); [discriminate|].
+  destruct (ps_outside (sysuse r)); [discriminate|].
   destruct (ps_is_dir r) eqn:Hd.
   - cbv beta iota zeta.
     match goal with |- context [if ?c then PInvalid 3 else _] => destruct c; [discriminate|] end.
@@ -200,13 +200,13 @@ Proof.
     + apply (ps_T1_key3 _ _ _ _ E). apply TR. apply in_or_app. right. exact H0.
 Qed.
 
-Lemma ps_walk_T img ptr isz : forall fuel st st', ps_T isz st -> s_cur st = [] ->
-  ps_walk fuel img ptr isz st = POk st' -> ps_T isz st' /\ s_cur st' = [].
+Lemma ps_walk_T rd ptr isz : forall fuel st st', ps_T isz st -> s_cur st = [] ->
+  ps_walk fuel rd ptr isz st = POk st' -> ps_T isz st' /\ s_cur st' = [].
 Proof.
   induction fuel as [|f IH]; intros st st' T Hc; [discriminate|]. cbn [ps_walk].
   destruct (s_queue st) as [|[ext len] q]; [intros H; injection H as <-; split; assumption|].
   destruct (ps_mem ext (s_seen st)); [discriminate|].
-  destruct (ms_img_read img ext len) as [data|]; [|discriminate].
+  destruct (rd ext len) as [data|]; [|discriminate].
   destruct (ps_scan _ _ data 0 len _) as [[st2 l2]| | |] eqn:Es; try discriminate.
   apply IH; [|reflexivity].
   assert (T2 : ps_T isz st2).
@@ -230,11 +230,11 @@ Theorem parse_truncation_lengths fuel img ptr isz re rl g :
     (p_dlen c = data_len (p_rec c) \/ (p_dlen c = isz - e * BS /\ l = isz - e * BS)) /\
     (e * BS + data_len (p_rec c) > isz -> p_dlen c = isz - e * BS /\ l = isz - e * BS).
 Proof.
-  unfold parse. destruct ptr as [|e0 pt]; [discriminate|].
-  destruct (ps_walk fuel img (e0 :: pt) isz (ps_init re rl)) as [st| | |] eqn:Ew; try discriminate.
+  unfold parse, ps_parse. destruct ptr as [|e0 pt]; [discriminate|].
+  destruct (ps_walk fuel (ms_img_read img) (e0 :: pt) isz (ps_init re rl)) as [st| | |] eqn:Ew; try discriminate.
   intros H. injection H as <-. intros c i Hc Hi.
   assert (T0 : ps_T isz (ps_init re rl)) by (constructor; [intros c0 []|intros x j Hx; discriminate Hx]).
-  destruct (ps_walk_T img (e0 :: pt) isz fuel _ st T0 eq_refl Ew) as [[TR _] Hcur].
+  destruct (ps_walk_T (ms_img_read img) (e0 :: pt) isz fuel _ st T0 eq_refl Ew) as [[TR _] Hcur].
   unfold ps_all_recs in Hc. cbn [g_dirs ps_graph g_inodes] in *.
   apply (TR c); [|exact Hi]. unfold ps_recs. rewrite Hcur, app_nil_r. exact Hc.
 Qed.
